@@ -55,15 +55,22 @@ Unchanged(p, o) == /\ o.tail = p.tail /\ o.R = p.R /\ o.RH = p.RH
                    /\ \/ (o.head = p.head /\ o.hs = p.hs)
                       \/ (p.head # 0 /\ o.head > p.head /\ (p.head..o.head) \subseteq p.R)
 
+\* heights an OnDelete handler appended while the deletion ran (reentrant use; empty otherwise)
+Also(e) == IF "also" \in DOMAIN e THEN SetOf(e.also) ELSE {}
+\* the top of the contiguous run that starts at h in S
+Top(h, S) == CHOOSE t \in h..(h + Cardinality(S)) : (h..t) \subseteq ({h} \cup S) /\ (t + 1) \notin S
+
 C08(e, p, o) ==
-  LET rng == Rng(e) IN
+  LET rng == Rng(e)
+      also == Also(e)
+      out == rng \cup also IN
        If(~Valid(e, p) /\ ~(e.res # "ok" /\ Unchanged(p, o)), "C08_other_ranges_rejected_without_effect")
   \cup If(e.res = "ok" /\ rng \cap (o.R \cup o.RH \cup o.KH \cup o.KI) # {}, "C08_range_not_retrievable_after_success")
-  \cup If((p.R \ rng) # (o.R \ rng) \/ (p.RH \ rng) # (o.RH \ rng), "C08_outside_untouched")
+  \cup If((p.R \ out) # (o.R \ out) \/ (p.RH \ out) # (o.RH \ out), "C08_outside_untouched")
   \cup If(e.res = "ok" /\ Valid(e, p) /\
           ~(IF Prefix(e, p) /\ Suffix(e, p)
               THEN (o.head = 0 /\ o.tail = 0) \/ (o.tail = e.to /\ e.to \in o.R)
-            ELSE IF Prefix(e, p) THEN o.tail = e.to /\ o.head = p.head
+            ELSE IF Prefix(e, p) THEN o.tail = e.to /\ o.head = Top(p.head, also)
             ELSE o.head = e.from - 1 /\ o.tail = p.tail),
           "C08_head_tail_describe_remaining_chain")
   \cup If(e.res # "ok" /\ Valid(e, p) /\ o.head # 0 /\ o.tail # 0 /\
@@ -136,7 +143,7 @@ Step ==
      ELSE
        LET valid == e.op = "delete" /\ Valid(e, p)
            lv1 == CASE e.op = "append" /\ e.res = "ok" -> lv0 \cup b
-                    [] e.op = "delete" /\ (valid \/ e.dsFault \/ e.afterDsFault) -> lv0 \ rng
+                    [] e.op = "delete" /\ (valid \/ e.dsFault \/ e.afterDsFault) -> (lv0 \ rng) \cup Also(e)
                     [] OTHER                           -> lv0
            dl1 == CASE e.op = "append"                 -> dl0 \ b
                     [] e.op = "delete" /\ e.res = "ok" -> dl0 \cup rng
